@@ -199,6 +199,12 @@ def hFuseOK : Handler := handler fun
   | [g, h, s, r] => do pure (SExp.ofBool (fuseOK (← lgraph? g) (← lgraph? h) (← objs? s) (← objs? r)))
   | _ => none
 
+/-- `(fuse_okr g h S ((old new) ...) req)`: the checker for outputs with renamed keys -/
+def hFuseOKR : Handler := handler fun
+  | [g, h, s, ren, r] => do
+    pure (SExp.ofBool (fuseOKR (← lgraph? g) (← lgraph? h) (← objs? s) (← lgraph? ren) (← objs? r)))
+  | _ => none
+
 /-- `(bw_leaf (names...) ((name k)|(ref k)|(other) ...) (numblocks-keys...))` -/
 def hBwLeaf : Handler := handler fun
   | [names, idx, nb] => do
@@ -227,7 +233,7 @@ def table : List (String × Handler) :=
    ("exec_graph", TermDrv.hExecGraph), ("legacy_refs", TermDrv.hLegacyRefs), ("alias_init", TermDrv.hAliasInit),
    ("task_roundtrip", TermDrv.hTaskRoundtrip), ("container_roundtrip", TermDrv.hContainerRoundtrip),
    ("slots", TermDrv.hSlots),
-   ("subs", TermDrv.hSubs), ("cull", TermDrv.hCull), ("fuse_ok", TermDrv.hFuseOK), ("bw_leaf", TermDrv.hBwLeaf),
+   ("subs", TermDrv.hSubs), ("cull", TermDrv.hCull), ("fuse_ok", TermDrv.hFuseOK), ("fuse_okr", TermDrv.hFuseOKR), ("bw_leaf", TermDrv.hBwLeaf),
    ("clone_legacy", TermDrv.hCloneLegacy), ("clone_spec", TermDrv.hCloneSpec),
    ("checkpoint_reduce", TermDrv.hCheckpointReduce)]
   ++ Dask.Order.ioHandlers ++ Dask.TaskTerm.renameIoHandlers ++ Dask.TaskTerm.specIoHandlers
